@@ -289,3 +289,11 @@ func nonNilAt(v ssa.Value, b *ssa.BasicBlock) bool {
 	}
 	return false
 }
+
+// constIntOrNil: constant integer value of v; (0,false) when v is nil or not constant.
+func constIntOrNil(v ssa.Value) (int64, bool) {
+	if v == nil {
+		return 0, false
+	}
+	return constInt(v)
+}
